@@ -722,3 +722,36 @@ Lemma local_witnesses_fine :
   /\ result 1 (run_coarse false [0; 0; 0; 0; 0; 0; 0; 0; 1; 1; 1; 1; 1] (init witness_SS)) = Some (true, [t_include 0; t_include 1])
   /\ file_writes 1 (run_coarse false [1; 1; 1; 0; 0; 0; 1; 0; 1; 1; 1; 1] (init witness_BA)) = [(0, t_inline 0)].
 Proof. vm_compute. repeat split. Qed.
+
+(* ---------- the parallel adaptors: indexed consumers = sequential consumers ---------- *)
+From Coq Require Import ZArith.
+
+Lemma fold_weighted : forall a b l i acc,
+  fold_left (fun acc p => (acc + (fst p + a) * (snd p + b))%Z)
+            (combine (map Z.of_nat (seq i (length l))) l) acc
+  = (acc + weighted a b (Z.of_nat i) l)%Z.
+Proof.
+  intros a b l. induction l as [|h r IH]; intros i acc; cbn [length seq map combine fold_left weighted].
+  - lia.
+  - rewrite IH. cbn [fst snd]. rewrite Nat2Z.inj_succ. unfold Z.succ. lia.
+Qed.
+
+Lemma find_first_indexed : forall l idx, length idx = length l ->
+  match filter (fun p : Z * Z => wanted (snd p)) (combine idx l) with
+  | p :: _ => snd p
+  | [] => (-1)%Z
+  end = match find wanted l with Some h => h | None => (-1)%Z end.
+Proof.
+  induction l as [|h r IH]; intros [|i idx] H; cbn in H; try discriminate; cbn [combine filter find snd].
+  - reflexivity.
+  - destruct (wanted h); [reflexivity|]. apply IH. lia.
+Qed.
+
+Theorem parallel_consumers_sequential : forall l, par_consumers l = seq_consumers l.
+Proof.
+  intros l. unfold par_consumers, seq_consumers, par_collect_ck, par_fold_ck, par_find_first,
+    par_filter_ck, par_collect_ck, indexed, parallel.
+  rewrite !fold_weighted. cbn [Z.of_nat Z.add].
+  rewrite find_first_indexed by (now rewrite map_length, seq_length).
+  reflexivity.
+Qed.
